@@ -403,6 +403,15 @@ func c19Replication(c *h.Ctx, id string, r *rand.Rand) {
 				map[string]any{"ops_since_last_sync": sinceSync, "sync_gaps": gaps, "events_tail": s.events[max(0, len(s.events)-40):]})
 			return false
 		}
+		// the routes the peer has installed must follow the reconstructed set (also when the
+		// catch-up came as a snapshot that only withdrew prefixes)
+		s.quiesce()
+		s.drain()
+		if !s.c19Check(c, id, when+" (replication)", func() map[string]any {
+			return map[string]any{"ops_since_last_sync": sinceSync, "sync_gaps": gaps, "events_tail": s.events[max(0, len(s.events)-40):]}
+		}) {
+			return false
+		}
 		gapCls := "le100"
 		if sinceSync > 100 {
 			gapCls = "gt100"
